@@ -12,6 +12,7 @@ CONSTANTS
     PRIOS <- PriosWide
     JUNK = {"garbage","empty","badma","nop2p"}
     MAXJUNK = 2
+    REKEEP = FALSE
     MAXSAVES = 2
     ImportCleans = TRUE
     UnmarshalMode = "merge"
